@@ -89,14 +89,15 @@ def handle (line : String) : String :=
     if shape.startsWith "X:" then
       match limit.toNat?, budget.toNat?, parseEdges (shape.drop 2).toString with
       | some l, some b, some edges =>
-        let (p, v) := predictX edges (setRecursionLimit l) (if b = 0 then none else some b)
+        let (p, v) := predictX edges (setRecursionLimitCfg ((thread.splitOn "+").contains "stk") l) (if b = 0 then none else some b)
         s!"{case}\t{showPredH p}\t{v}\t{hopsOf p}"
       | _, _, _ => s!"{case}\tbad-case\t0\t0\t0"
     else
     match limit.toNat?, budget.toNat? with
     | some l, some b =>
-      let l' := setRecursionLimit l
       let toks := thread.splitOn "+"
+      -- `stk`: the build with the `stacker` feature takes the configured limit as it is
+      let l' := setRecursionLimitCfg (toks.contains "stk") l
       let r :=
         -- `Template::new_state()` + `State::render_block`: the context starts without a frame and
         -- there is no root activation, so every depth is one less than in a render of the same
